@@ -44,6 +44,9 @@ pub fn value_alphabet() -> Vec<(Value, Form)> {
         (json!({}), Form::TupleStr),
         (json!([{}, [], {"e": {}, "l": [], "n": null}]), Form::TupleStr),
         (Value::Null, Form::Native(12)), // reads mutable state when serialised; the state changes right after set_claim
+        (Value::Null, Form::Native(13)), // builds and parses an inner token while it is being serialised
+        // members named "" below the top level (the builder's empty-key rule is about claim keys only)
+        (json!({"": 1, "a": {"": [], "b": [{"": null}, {"": {"": "deep"}}]}}), Form::TupleStr),
     ]
 }
 
